@@ -127,6 +127,16 @@ func c03TwinMay(p Prog) {
 	c03Twin(p)
 }
 
+// C03_Iterate: the optimizer reads every instruction with ReadOperands and
+// writes it back with MakeInstruction (iterateInstructions): for every opcode
+// and all operand values within the operand widths the two are inverse, so the
+// re-encoding is the identity also for operands no catalog program contains
+// (jump targets beyond 65535).
+func C03_Iterate() {
+	C02_Encoding()
+	vf.Reach("iterate")
+}
+
 // ---- optimizer lemma on arbitrary small instruction streams
 
 var lemmaOps = []byte{parser.OpTrue, parser.OpPop, parser.OpReturn, parser.OpJump, parser.OpJumpFalsy, parser.OpAndJump, parser.OpOrJump, parser.OpGetLocal,
